@@ -402,6 +402,20 @@ func (c *Chain) GenTxs(num uint32) []Cand {
 	user := func() Acct { return c.Users[r.Intn(len(c.Users))] }
 	typedOK := num >= c.Fork.GALACTICA
 	out = append(out, c.stakerTxs(num)...)
+	if typedOK && r.Chance(1, 3) {
+		// a filler: a transfer carrying calldata whose intrinsic gas is 50-95% of the parent's gas limit, so that blocks
+		// above the gas target (75%) occur and the base fee leaves its floor
+		want := c.Best.Header.GasLimit() / 100 * uint64(r.Range(50, 95))
+		if want > 30_000 {
+			data := make([]byte, (want-21_000)/68)
+			for i := range data {
+				data[i] = byte(1 + r.Intn(255))
+			}
+			to := user().Addr
+			out = append(out, Cand{c.MkTx(user(), []*tx.Clause{tx.NewClause(&to).WithData(data)}, num,
+				TxOpt{Gas: 21_000 + uint64(len(data))*68 + 1_000, Typed: r.Bool()}), "filler"})
+		}
+	}
 	for i := 0; i < n; i++ {
 		from := user()
 		o := TxOpt{Coef: uint8(r.Intn(256))}
@@ -811,4 +825,40 @@ func (c *Chain) stakerTxs(num uint32) []Cand {
 		}
 	}
 	return out
+}
+
+// RefBaseFee is the protocol's base-fee formula written independently of consensus/upgrade/galactica (reference helper of
+// the harness): first GALACTICA block -> InitialBaseFee; gas target = 75% of the parent's gas limit; +/- parentFee *
+// |used - target| / target / 8, at least +1 when above target, never below InitialBaseFee.  nil before the fork.
+func RefBaseFee(parent *block.Header, fork *thor.ForkConfig) *big.Int {
+	num := parent.Number() + 1
+	if num < fork.GALACTICA {
+		return nil
+	}
+	initial := new(big.Int).SetUint64(thor.InitialBaseFee)
+	if num == fork.GALACTICA {
+		return initial
+	}
+	target := new(big.Int).Div(new(big.Int).Mul(new(big.Int).SetUint64(parent.GasLimit()), big.NewInt(75)), big.NewInt(100))
+	used := new(big.Int).SetUint64(parent.GasUsed())
+	pb := parent.BaseFee()
+	switch used.Cmp(target) {
+	case 0:
+		return pb
+	case 1:
+		d := new(big.Int).Sub(used, target)
+		d.Mul(d, pb).Div(d, target).Div(d, big.NewInt(8))
+		if d.Sign() == 0 {
+			d.SetInt64(1)
+		}
+		return d.Add(d, pb)
+	default:
+		d := new(big.Int).Sub(target, used)
+		d.Mul(d, pb).Div(d, target).Div(d, big.NewInt(8))
+		d.Sub(pb, d)
+		if d.Cmp(initial) < 0 {
+			return initial
+		}
+		return d
+	}
 }
